@@ -498,7 +498,8 @@ GRID_E, GRID_C = 5, 4
 
 
 def alphabet_c(sid, thorough):
-    des = ['01', '02', '03', '02-1', '02-2', '03-2', sid + '01', sid + '02-2', 'OTH01', sid]
+    # sid[1:] / sid[:2]: ids of OTHER segments that are part of this one's id (K3 in AK3, N1 in CN1, ST in STC ...)
+    des = ['01', '02', '03', '02-1', '02-2', '03-2', sid + '01', sid + '02-2', 'OTH01', sid, sid[1:] + '01', sid[:2] + '02-1']
     if thorough:
         des += ['04-3', sid + '03', 'OTH02-1', 'OT01']
     if sid == 'ISA':
@@ -577,7 +578,7 @@ def run_hist(hist):
     ne = 18 if isa else GRID_E
     # prelude: every designator of the alphabet that names ANOTHER segment is first used, legitimately, on a segment of
     # that id in the same process -- what is refused must not depend on what was addressed before
-    for otxt, des in (('OTH*P*Q:R~', ('OTH01', 'OTH02-1')), ('OT*P~', ('OT01',))):
+    for otxt, des in (('OTH*P*Q:R~', ('OTH01', 'OTH02-1')), ('OT*P~', ('OT01',)), (sid[1:] + '*P~', (sid[1:] + '01',)), (sid[:2] + '*P*Q:R~', (sid[:2] + '02-1',))):
         o = pyx12.segment.Segment(otxt, '~', '*', ':')
         for r in des:
             o.get_value(r)
